@@ -20,7 +20,7 @@ PROPS = {
 }
 
 PROPS["C14"] = {
-    "jobs": ["c14"],
+    "jobs": ["c14", {"cmd": "c14e", "shards": 48}],
     "cli": False,
     "trusted_base": [
         "M3 in-process correspondence through the `verif` re-export of TagState (bounded-exhaustive name sets x lines, each case 3x with fresh hash seeds)",
